@@ -9,11 +9,11 @@ LEVEL = {"C17": "fault_enumeration", "C06": "model_checking", "C07": "model_chec
          "C16": "model_checking"}
 
 # (focus, tier) -> maximum number of generated cases replayed (seeded sample beyond it)
-SAMPLE_CAP = {("C01", "quick"): 2500, ("C01", "thorough"): 60000}
+SAMPLE_CAP = {("C01", "quick"): 3500, ("C01", "thorough"): 60000}
 # programs up to this many statements are always kept when sampling
 SHORT_LEN = {"C01": 5}
 
-FOCUS = {"C02": "C01", "C12": "C01", "C16": "C01"}
+FOCUS = {"C02": "C01", "C12": "C01"}
 
 # which TraceCore counter says "the property's antecedent really occurred" for each property
 NONTRIVIAL = {"C01": "kind_checks", "C12": "const_checks", "C02": "err_exits"}
@@ -145,8 +145,16 @@ def check(prop, tier, seed, focus=None, props_of_interest=None):
         rnd = random.Random(seed)
         # keep every short program, sample the rest
         cases.sort(key=lambda c: (len(c["ast"]), c["id"]))
-        short = [c for c in cases if len(c["ast"]) <= SHORT_LEN.get(focus, 0)]
-        rest = [c for c in cases if len(c["ast"]) > SHORT_LEN.get(focus, 0)]
+        # deterministic core: every short program, and every longer one whose "user" statement is the
+        # neutral `z = null` (so every combination of setters is observed); the rest is sampled
+        def core(c):
+            a = c["ast"]
+            if len(a) <= SHORT_LEN.get(focus, 0):
+                return True
+            u = a[-2] if len(a) >= 2 else {}
+            return len(a) <= 6 and u.get("k") == "asg" and u.get("e", {}).get("k") == "lit" and u["e"]["v"].get("t") == "null"
+        short = [c for c in cases if core(c)]
+        rest = [c for c in cases if not core(c)]
         cases = short + rnd.sample(rest, max(0, min(len(rest), cap - len(short))))
         sampled = True
     log(f"[{prop}] generated {total_generated} programs, replaying {len(cases)} x {len(events) if events else 'own'} events ({time.time()-t0:.0f}s)")
